@@ -90,21 +90,28 @@ func newConcurrentProcess(par int) *concurrentProcess {
 }
 
 func (proc *concurrentProcess) run(eg *errgroup.Group, exec *cmdExecution, callback func([]byte, error) error) {
+	verifPoint("spawn", proc, eg, exec)
 	proc.wg.Add(1)
 	eg.Go(func() error {
 		defer proc.wg.Done()
+		defer verifPoint("done", proc, eg, exec)
 		if err := proc.sema.Acquire(proc.ctx, 1); err != nil {
 			return fmt.Errorf("could not acquire semaphore to run %q: %w", exec.cmd, err)
 		}
+		verifPoint("acquired", proc, eg, exec)
 		stdout, err := exec.run()
+		verifExit(proc, eg, exec, stdout, err)
 		proc.sema.Release(1)
-		return callback(stdout, err)
+		verifPoint("released", proc, eg, exec)
+		return verifRet(callback(stdout, err), "callback", proc, eg, exec)
 	})
 }
 
 // wait waits all goroutines started by this concurrentProcess instance finish.
 func (proc *concurrentProcess) wait() {
+	verifPoint("procwait-enter", proc, nil, nil)
 	proc.wg.Wait() // Wait for all goroutines completing to shutdown
+	verifPoint("procwait-return", proc, nil, nil)
 }
 
 // newCommandRunner creates new external command runner for given executable. The executable path
@@ -169,5 +176,6 @@ func (cmd *externalCommand) run(args []string, stdin string, callback func([]byt
 // wait waits until all goroutines for this command finish. Note that it does not wait for
 // goroutines for other commands.
 func (cmd *externalCommand) wait() error {
-	return cmd.eg.Wait()
+	verifPoint("egwait-enter", cmd.proc, &cmd.eg, nil)
+	return verifRet(cmd.eg.Wait(), "egwait-return", cmd.proc, &cmd.eg, nil)
 }
